@@ -76,64 +76,81 @@ def encrypt (P : Prims) (privateKey password : Bytes) (compressed : Bool) : Outc
       P.aesEnc dk2 x1 ++ P.aesEnc dk2 x2
     pure (Base58Check.encode P.cksum payload)
 
-/-- `decrypt` (bip38.go:178-214): the non-EC-multiplied form -/
+/-- the key recovery of `decrypt` (bip38.go:193-213) -/
+def plainKey (P : Prims) (d : Bytes) (password : Bytes) : Outcome Bytes := do
+  let addressHash ← slice d 3 7
+  let key := P.scrypt password addressHash 16384 8 8 64
+  let dk1 ← slice key 0 32
+  let dk2 ← slice key 32 key.length
+  let c1 ← slice d 7 23
+  let c2 ← slice d 23 d.length
+  let d1a ← slice dk1 0 16
+  let d1b ← slice dk1 16 dk1.length
+  let p1 ← xorBytes (P.aesDec dk2 c1) d1a
+  let p2 ← xorBytes (P.aesDec dk2 c2) d1b
+  pure (p1 ++ p2)
+
+/-- `decrypt` (bip38.go:178-214, repaired): the non-EC-multiplied form -/
 def decryptPlain (P : Prims) (d : Bytes) (password : Bytes) : Outcome (Bytes × Bool) :=
   match d[2]? with
   | none => .panic
   | some flag =>
     if bip38_decrypt_0 (decodedEncryptedKey_2 := flag.toNat) then .err
-    else do
-      let compressed := bip38_decrypt_asg0 (decodedEncryptedKey_2 := flag.toNat)
-      let addressHash ← slice d 3 7
-      let key := P.scrypt password addressHash 16384 8 8 64
-      let dk1 ← slice key 0 32
-      let dk2 ← slice key 32 key.length
-      let c1 ← slice d 7 23
-      let c2 ← slice d 23 d.length
-      let d1a ← slice dk1 0 16
-      let d1b ← slice dk1 16 dk1.length
-      let p1 ← xorBytes (P.aesDec dk2 c1) d1a
-      let p2 ← xorBytes (P.aesDec dk2 c2) d1b
-      pure (p1 ++ p2, compressed)
+    else (plainKey P d password).map
+      (fun k => (k, bip38_decrypt_asg0 (decodedEncryptedKey_2 := flag.toNat)))
 
-/-- `decryptECMult` (ec_mult.go:172-232) -/
+/-- the key recovery of `decryptECMult` (ec_mult.go:186-231) -/
+def ecKey (P : Prims) (d : Bytes) (password : Bytes) (useLotSequence : Bool) : Outcome Bytes := do
+  let addressHash ← slice d 3 7
+  let ownerEntropy ← slice d 7 15
+  let passFactor ←
+    if bip38_decryptECMult_1 (useLotSequence := useLotSequence) then do
+      let ownerSalt ← slice ownerEntropy 0 4
+      let prefactor := P.scrypt password ownerSalt 16384 8 8 32
+      pure (P.dsha256 (prefactor ++ ownerEntropy))
+    else pure (P.scrypt password ownerEntropy 16384 8 8 32)
+  let passPoint ← P.baseMul passFactor
+  let key := P.scrypt passPoint (addressHash ++ ownerEntropy) 1024 1 1 64
+  let dk1 ← slice key 0 32
+  let dk2 ← slice key 32 key.length
+  let e1head ← slice d 15 23
+  let e2 ← slice d 23 d.length
+  let dec2 := P.aesDec dk2 e2
+  let dec2a ← slice dec2 0 8
+  let dec2b ← slice dec2 8 dec2.length
+  let k1624 ← slice dk1 16 24
+  let k24 ← slice dk1 24 dk1.length
+  let e1tail ← xorBytes dec2a k1624
+  let seedbTail ← xorBytes dec2b k24
+  let k016 ← slice dk1 0 16
+  -- `copy(encryptedHalf1[8:], …)` into a 16-byte buffer whose first 8 bytes are e1head
+  let e1 := e1head ++ e1tail.take 8
+  let seedbHead ← xorBytes (P.aesDec dk2 e1) k016
+  -- `copy(seedb[16:], …)` / `copy(seedb[:16], …)` into a 24-byte buffer
+  let seedb := seedbHead.take 16 ++ seedbTail.take 8
+  let factorb := P.dsha256 seedb
+  pure (P.mulModN factorb passFactor)
+
+/-- `decryptECMult` (ec_mult.go:172-232, repaired) -/
 def decryptEC (P : Prims) (d : Bytes) (password : Bytes) : Outcome (Bytes × Bool) :=
   match d[2]? with
   | none => .panic
   | some flag =>
     if bip38_decryptECMult_0 (decodedEncryptedKey_2 := flag.toNat) then .err
-    else do
-      let compressed := bip38_decryptECMult_asg0 (decodedEncryptedKey_2 := flag.toNat)
-      let useLotSequence := bip38_decryptECMult_asg1 (decodedEncryptedKey_2 := flag.toNat)
-      let addressHash ← slice d 3 7
-      let ownerEntropy ← slice d 7 15
-      let passFactor ←
-        if bip38_decryptECMult_1 (useLotSequence := useLotSequence) then do
-          let ownerSalt ← slice ownerEntropy 0 4
-          let prefactor := P.scrypt password ownerSalt 16384 8 8 32
-          pure (P.dsha256 (prefactor ++ ownerEntropy))
-        else pure (P.scrypt password ownerEntropy 16384 8 8 32)
-      let passPoint ← P.baseMul passFactor
-      let key := P.scrypt passPoint (addressHash ++ ownerEntropy) 1024 1 1 64
-      let dk1 ← slice key 0 32
-      let dk2 ← slice key 32 key.length
-      let e1head ← slice d 15 23
-      let e2 ← slice d 23 d.length
-      let dec2 := P.aesDec dk2 e2
-      let dec2a ← slice dec2 0 8
-      let dec2b ← slice dec2 8 dec2.length
-      let k1624 ← slice dk1 16 24
-      let k24 ← slice dk1 24 dk1.length
-      let e1tail ← xorBytes dec2a k1624
-      let seedbTail ← xorBytes dec2b k24
-      let k016 ← slice dk1 0 16
-      -- `copy(encryptedHalf1[8:], …)` into a 16-byte buffer whose first 8 bytes are e1head
-      let e1 := e1head ++ e1tail.take 8
-      let seedbHead ← xorBytes (P.aesDec dk2 e1) k016
-      -- `copy(seedb[16:], …)` / `copy(seedb[:16], …)` into a 24-byte buffer
-      let seedb := seedbHead.take 16 ++ seedbTail.take 8
-      let factorb := P.dsha256 seedb
-      pure (P.mulModN factorb passFactor, compressed)
+    else (ecKey P d password (bip38_decryptECMult_asg1 (decodedEncryptedKey_2 := flag.toNat))).map
+      (fun k => (k, bip38_decryptECMult_asg0 (decodedEncryptedKey_2 := flag.toNat)))
+
+/-- the address-hash check at the end of `Decrypt` (bip38.go:162-175) -/
+def checkAddress (P : Prims) (d : Bytes) (r : Bytes × Bool) : Outcome (Bytes × Bool) :=
+  match deriveAddress P r.1 r.2 with
+  | .err => .err
+  | .panic => .panic
+  | .ok addr =>
+    match slice d 3 7, slice (P.dsha256 addr) 0 4 with
+    | .ok addressHash, .ok derived =>
+      if bip38_Decrypt_4 (call_bytes_Equal_derivedAddressHash_4_addressHash := (derived == addressHash))
+      then .err else .ok r
+    | _, _ => .panic
 
 /-- `Decrypt` (bip38.go:130-176) -/
 def decrypt (P : Prims) (s password : Bytes) : Outcome (Bytes × Bool) :=
@@ -154,16 +171,7 @@ def decrypt (P : Prims) (s password : Bytes) : Outcome (Bytes × Bool) :=
           match inner with
           | .err => .err
           | .panic => .panic
-          | .ok (privateKey, compressed) =>
-            match deriveAddress P privateKey compressed with
-            | .err => .err
-            | .panic => .panic
-            | .ok addr =>
-              match slice d 3 7, slice (P.dsha256 addr) 0 4 with
-              | .ok addressHash, .ok derived =>
-                if bip38_Decrypt_4 (call_bytes_Equal_derivedAddressHash_4_addressHash := (derived == addressHash))
-                then .err else .ok (privateKey, compressed)
-              | _, _ => .panic
+          | .ok r => checkAddress P d r
       | _, _ => .panic
 
 /-! ### EC-multiply: intermediate codes and their use (ec_mult.go) -/
